@@ -384,6 +384,11 @@ func interpretCode(ansiCode string, prevState *ansiState) ansiState {
 		return state
 	}
 	ansiCode = ansiCode[2 : len(ansiCode)-1]
+	// ECMA-48: an empty parameter stands for the default value, which is 0
+	// (reset) for SGR. "31;" has an empty last parameter.
+	if ansiCode[len(ansiCode)-1] == ';' {
+		ansiCode += "0"
+	}
 
 	state256 := 0
 	ptr := &state.fg
@@ -391,7 +396,12 @@ func interpretCode(ansiCode string, prevState *ansiState) ansiState {
 	count := 0
 	for len(ansiCode) != 0 {
 		var num int
-		if num, ansiCode = parseAnsiCode(ansiCode); num != -1 {
+		emptyParam := ansiCode[0] == ';'
+		num, ansiCode = parseAnsiCode(ansiCode)
+		if num == -1 && emptyParam && state256 == 0 {
+			num = 0
+		}
+		if num != -1 {
 			count++
 			switch state256 {
 			case 0:
